@@ -321,3 +321,34 @@ Theorem C14_variants_region_order_irrelevant : forall ref que gs gs' inter l,
   exists l', variants_pair ref que gs' inter = Ok l' /\ Permutation.Permutation l l'.
 Proof. exact variants_region_order_irrelevant. Qed.
 Print Assumptions C14_variants_region_order_irrelevant.
+(* C14 itself, from bytes to mutations: a GenBank flat file and a GFF3 file (rows in any order) that describe the same coding features
+   give, for EVERY reference / query pair of rows, lists of mutations that hold the same records.  (to_region is the harness's reading
+   of the code's Region struct - strand -1 = reverse - under which the caller's model is compared with the code in C04 / C14.) *)
+From GF Require Import ConsumerGffAny EndToEnd.
+Theorem C14_same_mutations_from_both_files : forall
+  (pre : list section) (items : list (bool * feat * list N * wfeat)) (n : nat) (olines : list (list (list N * list N))) (gblines : list (list N * bool))
+  (regs : list (list N * (nat * nat))) (rows : list grow) (hdr : list N) (chunks : list (list N)) (id : list N) (gs : list group) (gfflines : list (list N * bool)),
+  let rs := map (fun x => cregion_of (region_gb (fst (fst (fst x))) (snd (fst (fst x))) (snd (fst x)))) items in
+  let genome := degap (map upper (concat chunks)) in
+  let R := map feat_of rows in
+  Forall sec_ok pre -> Forall other_name pre -> items <> [] ->
+  Forall (fun x => writes_cds (fst (fst (fst x))) (snd (fst (fst x))) (snd (fst x)) (snd x)) items ->
+  Forall (Forall piece_ok) olines -> Forall body_line_ok (map origin_line olines) ->
+  Forall (fun le => ok_line (fst le)) gblines ->
+  map fst gblines = flatten (pre ++ [features_section (map snd items); origin_section n olines]) ->
+  Forall wf_region regs -> rows <> [] -> Forall wf_row rows ->
+  first_field hdr = Some id -> concat chunks <> [] -> Forall valid_chunk chunks -> Forall ok_line ((62%N :: hdr) :: chunks) ->
+  Forall (fun r => is_cds_row r = true /\ exists i, row_id r = Some i) R -> ids_in_order [] R = map fst gs -> Forall (canonical R) gs ->
+  Forall (fun le => ok_line (fst le)) gfflines ->
+  map fst gfflines = version_line :: map region_line regs ++ map render_row rows ++ bs "##FASTA" :: (62%N :: hdr) :: chunks ->
+  length (concat (map (fun l => concat (map snd l)) olines)) = length genome ->
+  Forall2 (fun g x => region_from_gfeats genome (snd g) = Ok x) gs rs -> Forall (fun x => cr_name x <> []) rs ->
+  forall inter, codes rs (length genome) = Ok inter ->
+  exists gb_regions gff_regions,
+    regions_of_genbank_text (FastaLayout.render gblines) = Ok (gb_regions, inter) /\
+    regions_of_gff_text (FastaLayout.render gfflines) = Ok (gff_regions, inter) /\
+    forall (ref que : list N) (l : list variant),
+      variants_pair ref que (map to_region gb_regions) (map Z.to_nat inter) = Ok l ->
+      exists l', variants_pair ref que (map to_region gff_regions) (map Z.to_nat inter) = Ok l' /\ Permutation.Permutation l l'.
+Proof. exact same_mutations_from_both_files. Qed.
+Print Assumptions C14_same_mutations_from_both_files.
